@@ -75,6 +75,7 @@ def scriptOk (c : ClassInfo) : Bool :=
   && (!c.hasDb || c.script.contains .closeDb)
   && (!c.installsProxy || (c.script.contains .removeProxy && c.script.contains .clearFwd
         && c.script.contains .clearEndpointRef && (afterClosing c.script).contains .closeExitSockets))
+  && (!c.ownsChildren || (c.installsProxy && (afterClosing c.script).contains .unloadChildren))
 
 /-- every shipped overlay class (list regenerated from the source) has a complete, correctly ordered unload script -/
 theorem all_unload_scripts_complete : ∀ c ∈ Gen.classes, scriptOk c = true := by decide
@@ -91,7 +92,8 @@ example : Gen.classes.length ≥ 8 ∧ (Gen.classes.any (fun c => c.installsProx
     handlers open further exit sockets at each statement at which `unload` is suspended while the overlay or its proxy is
     still registered or the task manager is still up: after the script the overlay cannot be made to run (`Silent`, hence theorem 1 applies), its task manager is
     down, no removal task is left, the bootstrappers are unloaded, the cache is down and the database closed if it has
-    one, and a tunnel overlay has NO open exit socket.  Table-clearing statements after the shutdown have taken effect. -/
+    one, a tunnel overlay has NO open exit socket, and an overlay that runs child overlays (the PexCommunity of an
+    introduction point) has unloaded them ALL, also those started while it was unloading.  Table-clearing statements after the shutdown have taken effect. -/
 theorem unload_releases_everything (c : ClassInfo) (hc : scriptOk c = true) (sl : RemKind → Bool → Bool)
     (acq : Nat → Nat) (s : UState)
     (hstack : s.viaOuter = true → s.w.fwdRemove = true)
@@ -101,11 +103,12 @@ theorem unload_releases_everything (c : ClassInfo) (hc : scriptOk c = true) (sl 
     Silent s.self s'.w ∧ s'.tmDown = true ∧ s'.removals = [] ∧ s'.bootDown = true ∧
     (c.hasCache = true → s'.cacheDown = true) ∧ (c.hasDb = true → s'.dbClosed = true) ∧
     (c.installsProxy = true → s'.openExit = 0) ∧
+    (c.ownsChildren = true → s'.children = 0) ∧
     (c.installsProxy = true → UOp.clearTable .remExit ∈ afterClosing c.script → s'.exits = 0) ∧
     (UOp.clearTable .remCircuit ∈ c.script → s'.circuits = 0) ∧ (UOp.clearTable .remRelay ∈ c.script → s'.relays = 0) := by
   intro s'
   simp only [scriptOk, Bool.and_eq_true, Bool.or_eq_true, Bool.not_eq_true', List.contains_iff_mem] at hc
-  obtain ⟨⟨⟨⟨⟨hself, htm⟩, hboot⟩, hcache⟩, hdb⟩, hproxy⟩ := hc
+  obtain ⟨⟨⟨⟨⟨⟨hself, htm⟩, hboot⟩, hcache⟩, hdb⟩, hproxy⟩, hkids⟩ := hc
   have P := fun (t : UState) (a : UOp) => step_proj sl acq t a
   have hframe : UFrame s.self s.proxy s := by
     refine ⟨rfl, rfl, hstack, ?_⟩
@@ -185,6 +188,7 @@ theorem unload_releases_everything (c : ClassInfo) (hc : scriptOk c = true) (sl 
         exact ⟨f.2.2.2.2.1.trans h1, f.2.2.2.2.2.2.2.1⟩
       | clearTable k => cases k <;> exact ⟨h1, h2⟩
       | clearEndpointRef => simp only [UState.core]; split <;> exact ⟨h1, h2⟩
+      | unloadChildren => exact ⟨h1, h2⟩
       | _ => simp [UState.core, h1, h2]
     · intro t _
       rw [(P t .tmShutdown).2.2.2.2.1, (P t .tmShutdown).2.2.2.2.2.2.2.1]
@@ -201,7 +205,8 @@ theorem unload_releases_everything (c : ClassInfo) (hc : scriptOk c = true) (sl 
   have tail : ∀ (script : List UOp) (s0 : UState), UOp.removeSelf ∈ script → UOp.tmShutdown ∈ script →
       UOp.removeProxy ∈ script → UFrame s.self s.proxy s0 → script = script →
       (UOp.closeExitSockets ∈ afterClosing script → (s0.run sl acq script).openExit = 0) ∧
-      (UOp.clearTable .remExit ∈ afterClosing script → (s0.run sl acq script).exits = 0) := by
+      (UOp.clearTable .remExit ∈ afterClosing script → (s0.run sl acq script).exits = 0) ∧
+      (UOp.unloadChildren ∈ afterClosing script → (s0.run sl acq script).children = 0) := by
     intro script s0 h1 h2 h3 hf _
     have hany : script.any UOp.isClosing = true := List.any_eq_true.mpr ⟨_, h2, rfl⟩
     obtain ⟨pre, hsplit, hpre⟩ := afterClosing_split script hany
@@ -263,7 +268,7 @@ theorem unload_releases_everything (c : ClassInfo) (hc : scriptOk c = true) (sl 
       have := run_append sl acq s0 pre (afterClosing script)
       rw [← hsplit] at this
       exact this
-    constructor
+    refine ⟨?_, ?_, ?_⟩
     · intro hm
       rw [hrun]
       refine foldl_establish (UState.step sl acq) K (fun t => t.openExit = 0) .closeExitSockets hK ?_ ?_
@@ -276,6 +281,7 @@ theorem unload_releases_everything (c : ClassInfo) (hc : scriptOk c = true) (sl 
           simp only [UState.core]; exact (finishAll_frame t.removals { t with removals := [] }).2.2.2.2.2.2.2.2.1 h
         | clearTable k => cases k <;> exact h
         | clearEndpointRef => simp only [UState.core]; split <;> exact h
+        | unloadChildren => exact h
         | _ => simp [UState.core, h]
       · intro t hk
         rw [((P t .closeExitSockets).2.2.2.2.2.2.2.2.2.2.2 (noacq t _ hk)).1]
@@ -285,18 +291,42 @@ theorem unload_releases_everything (c : ClassInfo) (hc : scriptOk c = true) (sl 
       refine foldl_establish (UState.step sl acq) K (fun t => t.exits = 0) (.clearTable .remExit) hK ?_ ?_
         (afterClosing script) _ hK0 hm
       · intro t a hk h
-        rw [((P t a).2.2.2.2.2.2.2.2.2.2.2 (noacq t a hk)).2]
+        rw [((P t a).2.2.2.2.2.2.2.2.2.2.2 (noacq t a hk)).2.1]
         cases a with
         | spawnRemovals k n cl => simp only [UState.core]; split <;> exact h
         | awaitRemovals =>
           simp only [UState.core]; exact (finishAll_frame t.removals { t with removals := [] }).2.2.2.2.2.2.2.2.2.2.2 h
         | clearTable k => cases k <;> simp [UState.core, UState.clear, h]
         | clearEndpointRef => simp only [UState.core]; split <;> exact h
+        | unloadChildren => exact h
         | _ => simp [UState.core, h]
       · intro t hk
-        rw [((P t (.clearTable .remExit)).2.2.2.2.2.2.2.2.2.2.2 (noacq t _ hk)).2]
+        rw [((P t (.clearTable .remExit)).2.2.2.2.2.2.2.2.2.2.2 (noacq t _ hk)).2.1]
         simp [UState.core, UState.clear]
-  refine ⟨⟨habs, hnf, hnr⟩, htmd.1, htmd.2, ?_, ?_, ?_, ?_, ?_, ?_, ?_⟩
+    · intro hm
+      rw [hrun]
+      refine foldl_establish (UState.step sl acq) K (fun t => t.children = 0) .unloadChildren hK ?_ ?_
+        (afterClosing script) _ hK0 hm
+      · intro t a hk h
+        rw [((P t a).2.2.2.2.2.2.2.2.2.2.2 (noacq t a hk)).2.2]
+        cases a with
+        | spawnRemovals k n cl => simp only [UState.core]; split <;> exact h
+        | awaitRemovals =>
+          simp only [UState.core]
+          have : ∀ (rs : List (RemKind × Bool)) (u : UState), (rs.foldl (fun acc r => acc.finishRemoval r.1) u).children = u.children := by
+            intro rs
+            induction rs with
+            | nil => intro u; rfl
+            | cons r rest ih => intro u; simp only [List.foldl_cons]; rw [ih]; cases r.1 <;> rfl
+          rw [this]; exact h
+        | clearTable k => cases k <;> exact h
+        | clearEndpointRef => simp only [UState.core]; split <;> exact h
+        | unloadChildren => rfl
+        | _ => simp [UState.core, h]
+      · intro t hk
+        rw [((P t .unloadChildren).2.2.2.2.2.2.2.2.2.2.2 (noacq t _ hk)).2.2]
+        simp [UState.core]
+  refine ⟨⟨habs, hnf, hnr⟩, htmd.1, htmd.2, ?_, ?_, ?_, ?_, ?_, ?_, ?_, ?_⟩
   · -- bootstrappers
     refine flag (fun t => t.bootDown) ?_ (fun t a => (P t a).2.2.2.2.2.2.2.2.1) .unloadBootstrappers (fun t => by simp [UState.core]) hboot
     intro t a h
@@ -312,6 +342,7 @@ theorem unload_releases_everything (c : ClassInfo) (hc : scriptOk c = true) (sl 
       rw [this]; exact h
     | clearTable k => cases k <;> exact h
     | clearEndpointRef => simp only [UState.core]; split <;> exact h
+    | unloadChildren => exact h
     | _ => simp [UState.core, h]
   · intro hcc
     have hm : UOp.cacheShutdown ∈ c.script := by
@@ -326,6 +357,7 @@ theorem unload_releases_everything (c : ClassInfo) (hc : scriptOk c = true) (sl 
       simp only [UState.core]; exact (finishAll_frame t.removals { t with removals := [] }).2.2.2.2.2.1.trans h
     | clearTable k => cases k <;> exact h
     | clearEndpointRef => simp only [UState.core]; split <;> exact h
+    | unloadChildren => exact h
     | _ => simp [UState.core, h]
   · intro hcc
     have hm : UOp.closeDb ∈ c.script := by
@@ -340,6 +372,7 @@ theorem unload_releases_everything (c : ClassInfo) (hc : scriptOk c = true) (sl 
       simp only [UState.core]; exact (finishAll_frame t.removals { t with removals := [] }).2.2.2.2.2.2.1.trans h
     | clearTable k => cases k <;> exact h
     | clearEndpointRef => simp only [UState.core]; split <;> exact h
+    | unloadChildren => exact h
     | _ => simp [UState.core, h]
   · -- exit sockets: the sweep comes after the last closing statement, after which nothing can be acquired any more
     intro hp
@@ -349,13 +382,25 @@ theorem unload_releases_everything (c : ClassInfo) (hc : scriptOk c = true) (sl 
       · simp [hp] at h
       · exact h
     exact (tail c.script s hself htm hall.1.1.1 hframe rfl).1 hall.2
+  · -- child overlays: unloaded after the last closing statement
+    intro hk
+    have hk2 : c.installsProxy = true ∧ UOp.unloadChildren ∈ afterClosing c.script := by
+      rcases hkids with h | h
+      · simp [hk] at h
+      · exact h
+    have hall : ((UOp.removeProxy ∈ c.script ∧ UOp.clearFwd ∈ c.script) ∧ UOp.clearEndpointRef ∈ c.script) ∧
+        UOp.closeExitSockets ∈ afterClosing c.script := by
+      rcases hproxy with h | h
+      · simp [hk2.1] at h
+      · exact h
+    exact (tail c.script s hself htm hall.1.1.1 hframe rfl).2.2 hk2.2
   · intro hp hm
     have hall : ((UOp.removeProxy ∈ c.script ∧ UOp.clearFwd ∈ c.script) ∧ UOp.clearEndpointRef ∈ c.script) ∧
         UOp.closeExitSockets ∈ afterClosing c.script := by
       rcases hproxy with h | h
       · simp [hp] at h
       · exact h
-    exact (tail c.script s hself htm hall.1.1.1 hframe rfl).2 hm
+    exact (tail c.script s hself htm hall.1.1.1 hframe rfl).2.1 hm
   · intro hm
     refine est (fun _ => True) (fun t => t.circuits = 0) (.clearTable .remCircuit) (fun _ _ _ => trivial) ?_ ?_ trivial hm
     · intro t a _ h
@@ -366,6 +411,7 @@ theorem unload_releases_everything (c : ClassInfo) (hc : scriptOk c = true) (sl 
         simp only [UState.core]; exact (finishAll_frame t.removals { t with removals := [] }).2.2.2.2.2.2.2.2.2.1 h
       | clearTable k => cases k <;> simp [UState.core, UState.clear, h]
       | clearEndpointRef => simp only [UState.core]; split <;> exact h
+      | unloadChildren => exact h
       | _ => simp [UState.core, h]
     · intro t _; rw [(P t _).2.2.2.2.2.2.2.2.2.1]; simp [UState.core, UState.clear]
   · intro hm
@@ -378,13 +424,14 @@ theorem unload_releases_everything (c : ClassInfo) (hc : scriptOk c = true) (sl 
         simp only [UState.core]; exact (finishAll_frame t.removals { t with removals := [] }).2.2.2.2.2.2.2.2.2.2.1 h
       | clearTable k => cases k <;> simp [UState.core, UState.clear, h]
       | clearEndpointRef => simp only [UState.core]; split <;> exact h
+      | unloadChildren => exact h
       | _ => simp [UState.core, h]
     · intro t _; rw [(P t _).2.2.2.2.2.2.2.2.2.2.1]; simp [UState.core, UState.clear]
 
 /-- the hypotheses hold for a concrete loaded tunnel overlay on a wrapped endpoint with live circuits and an open exit
     socket, with an adversary that opens a socket at every suspension; the conclusion is not vacuous there -/
 example :
-    let c : ClassInfo := (Gen.classes.find? (fun c => c.name == "TunnelCommunity")).getD ⟨"", false, false, false, []⟩
+    let c : ClassInfo := (Gen.classes.find? (fun c => c.name == "TunnelCommunity")).getD ⟨"", false, false, false, false, []⟩
     let w : World := ({ } : World).run ([.add false 3] ++ loadOps c true 1 2 7)
     let s : UState := { w := w, self := 1, proxy := 2, viaOuter := true, circuits := 2, relays := 1, exits := 1, openExit := 1 }
     scriptOk c = true ∧ (1 ∈ w.touched 7) ∧ (1 ∈ w.touched 9) ∧ (s.viaOuter = true → s.w.fwdRemove = true) ∧
@@ -392,12 +439,21 @@ example :
     (1 ∉ (s.run (fun k now => Gen.removalSleeps k now Gen.defaultRemoveDelay) (fun _ => 1) c.script).w.touched 7) ∧
     (s.run (fun k now => Gen.removalSleeps k now Gen.defaultRemoveDelay) (fun _ => 1) c.script).openExit = 0 := by decide
 
+/-- child overlays: a HiddenTunnelCommunity that runs two PEX overlays, with an adversary that starts another one at every
+    suspension, ends with none -/
+example :
+    let c : ClassInfo := (Gen.classes.find? (fun c => c.name == "HiddenTunnelCommunity")).getD ⟨"", false, false, false, false, []⟩
+    let w : World := ({ } : World).run (loadOps c false 1 2 7)
+    let s : UState := { w := w, self := 1, proxy := 2, viaOuter := false, exits := 1, openExit := 1, children := 2 }
+    c.ownsChildren = true ∧ scriptOk c = true ∧
+    (s.run (fun k now => Gen.removalSleeps k now Gen.defaultRemoveDelay) (fun _ => 1) c.script).children = 0 := by decide
+
 /-- ORDER matters in the model as it does in the code: the same statements with the exit-socket sweep BEFORE the
     task-manager shutdown are rejected by `scriptOk`, and rightly so — a socket opened while that sweep is suspended stays -/
 example :
     let bad : List UOp := [.cacheShutdown, .removeProxy, .clearFwd, .clearEndpointRef, .closeExitSockets, .unloadBootstrappers,
                            .removeSelf, .tmShutdown]
-    let c : ClassInfo := ⟨"sweep-too-early", true, true, false, bad⟩
+    let c : ClassInfo := ⟨"sweep-too-early", true, true, false, false, bad⟩
     let s : UState := { w := {}, self := 1, proxy := 2, viaOuter := false, exits := 1, openExit := 1 }
     scriptOk c = false ∧ (s.run (fun _ _ => false) (fun pc => if pc = 4 then 1 else 0) bad).openExit = 1 := by decide
 
@@ -406,7 +462,7 @@ example :
 example :
     let bad : List UOp := [.cacheShutdown, .tmShutdown, .closeExitSockets, .removeProxy, .clearFwd, .clearEndpointRef,
                            .unloadBootstrappers, .removeSelf]
-    let c : ClassInfo := ⟨"listeners-removed-too-late", true, true, false, bad⟩
+    let c : ClassInfo := ⟨"listeners-removed-too-late", true, true, false, false, bad⟩
     let w : World := ({ } : World).run (loadOps c false 1 2 7)
     let s : UState := { w := w, self := 1, proxy := 2, viaOuter := false, exits := 1, openExit := 1 }
     scriptOk c = false ∧ (s.run (fun _ _ => false) (fun pc => if pc = 2 then 1 else 0) bad).openExit = 1 := by decide
